@@ -95,8 +95,8 @@ Proof.
 Qed.
 Print Assumptions C01_from_document_partial.
 
-(* C01 WITHOUT any side condition for every instance whose machine post-buffers are unordered (flex_post_b: FLEX,
-   the compiler's default for every buffer): every state the environment reaches from an initial state (jobs not
+(* C01 WITHOUT any side condition for every instance whose machine post-buffers are unordered (flex_post_b: FLEX, the
+   compiler's default for every buffer, or of capacity one): every state the environment reaches from an initial state (jobs not
    started, machines and AGVs idle and empty, no unfinished job in an output buffer, no AGV waiting on a time
    dependency: all boolean, all evaluated on the compiled initial states by the check) under ANY accept/decline
    sequence of ANY length, any oracle, fuel and truncation setting is a feasible schedule - and so is every
